@@ -87,9 +87,31 @@ def _validate(records: list[dict[str, Any]], rep: Report | None, label: str) -> 
 # ---------------------------------------------------------------- Q4
 
 
+from gallia.command.config import Field, GalliaBaseModel  # noqa: E402  (names the declaration parser evaluates)
+
+_ROOT_LEVEL_CFG: list[type] = []
+
+
+def _declare_root_level_config() -> None:
+    """A config class whose options live at the ROOT of gallia.toml (`config_section=""`, which
+    GalliaBaseModel.__init_subclass__ / attributes_from_config support explicitly; no stock command uses it, a
+    plugin may).  Declared once per process, after the stock command tree has been imported."""
+    if _ROOT_LEVEL_CFG:
+        return
+
+    class C18RootLevelConfig(GalliaBaseModel, cli_group="c18", config_section=""):
+        c18_bench_id: str = Field("bench-0", description="Identifier of the test bench (root level of gallia.toml)")
+        c18_bench_rev: int = Field(3, description="Revision of the test bench (root level of gallia.toml)")
+
+    _ROOT_LEVEL_CFG.append(C18RootLevelConfig)
+
+
 def template_records() -> list[dict[str, Any]]:
     from gallia.cli import gallia as gcli
     from gallia.config import Config
+
+    L.all_config_classes()  # the stock classes register first, as they do when the CLI starts
+    _declare_root_level_config()
 
     buf = io.StringIO()
     with contextlib.redirect_stdout(buf):
